@@ -129,15 +129,16 @@ def r2_once(ctx, rep, R='C14.R2'):
     ys = [n for n in ast.walk(fi.node) if isinstance(n, ast.Yield)]
     ok = len(ys) == 1
     if ok:
+        from .common import guard_literals
         y = ys[0]
-        lits = path_literals(y._parent, fi.node)
+        lits = guard_literals(ctx, fi, y)
         key = norm(y.value.elts[0]) if isinstance(y.value, ast.Tuple) else norm(y.value)
         mem = [(e, pos) for e, pos in lits if isinstance(e, ast.Compare) and
                isinstance(e.ops[0], ast.In) and norm(e.left) == key]
         ok = len(mem) == 1 and mem[0][1] is False and len(lits) == 1
         if ok:
             seen = dotted(mem[0][0].comparators[0])
-            marks = [n for n in ast.walk(y._parent._parent) if
+            marks = [n for n in ast.walk(fi.node) if
                      (isinstance(n, ast.Assign) and any(
                          isinstance(t, ast.Subscript) and dotted(t.value) == seen and
                          norm(t.slice) == key for t in n.targets)) or
@@ -296,12 +297,13 @@ def r5_package_restricts(ctx, rep, R='C14.R5'):
     fi = ctx.model.func('find.test_dirs')
     ys = [n for n in ast.walk(fi.node) if isinstance(n, (ast.Yield, ast.YieldFrom))]
     ok = False
+    from .common import guard_literals
     for y in ys:
         if 'options.test_path' in norm(y.value):
-            lits = path_literals(y._parent, fi.node)
+            lits = guard_literals(ctx, fi, y)
             ok = [(norm(e), pos) for e, pos in lits] == [('options.package', False)]
     others = [y for y in ys if 'options.test_path' not in norm(y.value)]
-    ok2 = all(any(norm(e) == 'options.package' and pos for e, pos in path_literals(y._parent, fi.node))
+    ok2 = all(any(norm(e) == 'options.package' and pos for e, pos in guard_literals(ctx, fi, y))
               for y in others) and bool(others)
     rep.check(ok and ok2, R, 'test_dirs: test_path iff not options.package',
               'the whole test path is walked although --package was given (or never)',
